@@ -47,7 +47,8 @@ def run_job(mod, job):
 
 def main():
     pid = sys.argv[1]
-    mod = importlib.import_module("props." + pid)
+    from .runner import _load_prop
+    mod = _load_prop(pid)
     jobs = json.loads(sys.stdin.read())
     outs = [run_job(mod, j) for j in jobs]
     sys.stdout.write("\n" + json.dumps(outs, default=str) + "\n")
